@@ -22,13 +22,24 @@ ENV = dict(os.environ, CARGO_NET_OFFLINE='true')
 
 
 def sh(cmd, timeout=None, cwd=None, env=None):
+    """run a command in its own process group; on timeout the whole group is killed (cargo kani leaves cbmc behind otherwise)"""
+    import signal
     t0 = time.time()
+    p = subprocess.Popen(cmd, shell=isinstance(cmd, str), cwd=cwd, env=env or ENV, stdout=subprocess.PIPE, stderr=subprocess.PIPE,
+                         text=True, start_new_session=True)
     try:
-        p = subprocess.run(cmd, shell=isinstance(cmd, str), cwd=cwd, env=env or ENV, stdout=subprocess.PIPE,
-                           stderr=subprocess.PIPE, timeout=timeout, text=True)
-        return p.returncode, p.stdout, p.stderr, time.time() - t0
-    except subprocess.TimeoutExpired as e:
-        return 124, (e.stdout or b'').decode() if isinstance(e.stdout, bytes) else (e.stdout or ''), 'TIMEOUT', time.time() - t0
+        out, err = p.communicate(timeout=timeout)
+        return p.returncode, out, err, time.time() - t0
+    except subprocess.TimeoutExpired:
+        try:
+            os.killpg(p.pid, signal.SIGKILL)
+        except Exception:
+            pass
+        try:
+            out, err = p.communicate(timeout=10)
+        except Exception:
+            out, err = '', ''
+        return 124, out or '', 'TIMEOUT', time.time() - t0
 
 
 class Undecided(Exception):
